@@ -44,7 +44,7 @@ fn agg_tag(text: &str, r: &BatchResult) -> String {
 // ---------------------------------------------------------------------------------------------------------------
 // typed stream: table, statements as data, reference
 
-pub const C04_DEF: &str = "CREATE TABLE t(line = '^([a-z]+)?;(-?[0-9]+)?;(-?[0-9]+)?;([^;]+)?;([^;]+)?;(true|false)?;([0-9]+:[0-9]{2}:[0-9]{2})?;(?:([0-9]{4})-([0-9]{2})-([0-9]{2}) ([0-9]{2}):([0-9]{2}):([0-9]{2}))?$', line[1] => k TEXT, line[2] => v INT, line[3] => w INT, line[4] => r REAL, line[5] => s TEXT, line[6] => b BOOLEAN, line[7] => iv INTERVAL, line[8], line[9], line[10], line[11], line[12], line[13] => ts TIMESTAMP);";
+pub const C04_DEF: &str = "CREATE TABLE t(line = '^([a-z]+)?;(-?[0-9]+)?;(-?[0-9]+)?;([^;]+)?;(?:~|([^;]*));(true|false)?;([0-9]+:[0-9]{2}:[0-9]{2})?;(?:([0-9]{4})-([0-9]{2})-([0-9]{2}) ([0-9]{2}):([0-9]{2}):([0-9]{2}))?$', line[1] => k TEXT, line[2] => v INT, line[3] => w INT, line[4] => r REAL, line[5] => s TEXT, line[6] => b BOOLEAN, line[7] => iv INTERVAL, line[8], line[9], line[10], line[11], line[12], line[13] => ts TIMESTAMP);";
 
 const COLS: &[&str] = &["k", "v", "w", "r", "s", "b", "iv", "ts"];
 const NCOLS: usize = 8;
@@ -312,13 +312,13 @@ pub fn gen_typed_input(rng: &mut Rng, large: bool) -> Vec<String> {
         let v = (x - 5).to_string();
         let w = if large { ((x * 7) % pool as i64 - 3).to_string() } else { rng.range(-2, 3).to_string() };
         let r = if large { format!("{}", (x as f64) * 0.25 - 2.0) } else { (*rng.pick(&["0.5", "1.5", "-2.25", "100", "3", "8", "0.25"])).to_owned() };
-        let s = if large { format!("s{}", x) } else { (*rng.pick(&["x", "y", "hello", "q q", "10"])).to_owned() };
+        let s = if large { format!("s{}", x) } else { (*rng.pick(&["x", "y", "hello", "q q", "10", "", ""])).to_owned() };  // column s: `~` is NULL, the empty field is the empty TEXT
         let b = (*rng.pick(&["true", "false"])).to_owned();
         let iv = if large { format!("{}:{:02}:{:02}", x / 7, (x * 13) % 60, (x * 29) % 60) } else { (*rng.pick(&["0:00:10", "1:02:03", "0:30:00", "2:00:00", "10:00:01", "0:00:00", "0:00:10", "2:00:00", "1000000:00:00", "2500000:30:00"])).to_owned() };  // the last two: a few of them sum to more than 2^63 ns (still far inside chrono's range)
         let y = rng.below(if large { pool } else { 6 }) as i64;
         let ts = format!("{}-{:02}-{:02} {:02}:{:02}:{:02}", 1999 + y % 3 * 10, 1 + y % 12, 1 + (y * 5) % 28, y % 24, (y * 7) % 60, (y * 11) % 60);
         let mut f: Vec<String> = vec![keys[ki].to_owned(), v, w, r, s, b, iv, ts];
-        for c in 1..NCOLS { if rng.chance(nullp[ki][c], 100) { f[c] = String::new(); } }
+        for c in 1..NCOLS { if rng.chance(nullp[ki][c], 100) { f[c] = if c == S { "~".to_owned() } else { String::new() }; } }
         rows.push(Ok((ki, f)));
     }
     // a NULL argument in the first, a middle or the last row of a group
@@ -328,7 +328,7 @@ pub fn gen_typed_input(rng: &mut Rng, large: bool) -> Vec<String> {
         let idx: Vec<usize> = rows.iter().enumerate().filter(|(_, r)| matches!(r, Ok((k, _)) if *k == ki)).map(|(i, _)| i).collect();
         if idx.is_empty() { continue; }
         let at = match rng.below(3) { 0 => idx[0], 1 => idx[idx.len() / 2], _ => idx[idx.len() - 1] };
-        if let Ok((_, f)) = &mut rows[at] { f[c] = String::new(); }
+        if let Ok((_, f)) = &mut rows[at] { f[c] = if c == S { "~".to_owned() } else { String::new() }; }
     }
     // arrival orders: as generated, or sorted / reversed by the argument pools
     if large {
@@ -404,12 +404,31 @@ fn ref_aggregate(a: &AggK, rows: &[&Vec<Value>]) -> Value {
         }
         AggK::Stddev(_, var) => {
             if nn.is_empty() { return Value::Null; }
-            // population variance from Σx, Σx², n (formula as in the code; the inputs are exactly representable)
-            let xs: Vec<f64> = nn.iter().map(|v| match v { Value::Int(x) => *x as f64, Value::Float(x) => x.0, _ => 0.0 }).collect();
-            let n = xs.len() as f64;
-            let s: f64 = xs.iter().sum();
-            let q: f64 = xs.iter().map(|x| x * x).sum();
-            let variance = (q - (s * s) / n) / n;
+            // POPULATION variance (divisor n; the sentence and the README do not say population or sample: the code's
+            // choice), computed here over EXACT rationals — not by the code's one-pass REAL formula: the generated INT values
+            // are integers and the REAL values multiples of 1/4, so with m = 4·x: Var(x) = (n·Σm² − (Σm)²) / (16·n²), one
+            // correctly rounded division. The implementation's REAL may differ from it by rounding (see `cells_match`).
+            let ms: Option<Vec<i128>> = nn.iter().map(|v| match v {
+                Value::Int(x) => Some(*x as i128 * 4),
+                Value::Float(x) if (x.0 * 4.0).fract() == 0.0 && x.0.abs() < 1e12 => Some((x.0 * 4.0) as i128),
+                _ => None,
+            }).collect();
+            let variance = match ms {
+                Some(ms) => {
+                    let n = ms.len() as i128;
+                    let s: i128 = ms.iter().sum();
+                    let q: i128 = ms.iter().map(|m| m * m).sum();
+                    (n * q - s * s) as f64 / (16 * n * n) as f64
+                }
+                None => {
+                    // values outside the exactly representable pool (not generated): the one-pass formula
+                    let xs: Vec<f64> = nn.iter().map(|v| match v { Value::Int(x) => *x as f64, Value::Float(x) => x.0, _ => 0.0 }).collect();
+                    let n = xs.len() as f64;
+                    let s: f64 = xs.iter().sum();
+                    let q: f64 = xs.iter().map(|x| x * x).sum();
+                    (q - (s * s) / n) / n
+                }
+            };
             Value::Float(Float(if *var { variance } else { variance.sqrt() }))
         }
         AggK::Min(_) => nn.iter().fold(Value::Null, |cur, v| if cur == Value::Null || cmp_val(v, &cur) == Ordering::Less { v.clone() } else { cur }),
@@ -443,11 +462,32 @@ fn apply_wrap(v: Value, wrap: &Option<(&'static str, i64, u8)>) -> Value {
     }
 }
 
+/// `run_engine_batch`'s rendering of `ExecutionError::CannotCreateArrayOfNullType` (src/execution/mod.rs), the answer D15 predicts
+const D15_ERROR: &str = "exec: Cannot create array of null type";
+
+/// cell comparison of the implementation's table with the reference: identical, except that two REALs may differ by
+/// rounding (relative 1e-12; the reference computes STDDEV / VARIANCE over exact rationals, the code in REAL arithmetic)
+fn cells_match(a: &Value, b: &Value) -> bool {
+    match (a, b) {
+        (Value::Float(x), Value::Float(y)) => {
+            let (x, y) = (x.0, y.0);
+            x == y || (x.is_nan() && y.is_nan()) || (x - y).abs() <= 1e-12 * x.abs().max(y.abs()).max(1e-300)
+        }
+        _ => a == b,
+    }
+}
+fn tables_match(a: &[Vec<Value>], b: &[Vec<Value>]) -> bool {
+    a.len() == b.len() && a.iter().zip(b.iter()).all(|(r, t)| r.len() == t.len() && r.iter().zip(t.iter()).all(|(x, y)| cells_match(x, y)))
+}
+
 struct RefOut {
     /// the statement takes STDDEV / VARIANCE of intervals: the sentence does not say what that is (the code reports an
     /// overflow or no value), so nothing is demanded
     undecided: bool,
     rows: Vec<Vec<Value>>,
+    /// the table finding D10 predicts: `rows` without exactly the groups in which no aggregate of the statement creates an
+    /// entry (HAVING applied to the groups that are left; same columns, same order)
+    rows_d10: Vec<Vec<Value>>,
     /// a group exists in which no aggregate of the statement creates an entry (finding D10)
     d10: bool,
     /// an ARRAY_AGG whose first value in some group is NULL (finding D15)
@@ -479,21 +519,24 @@ fn reference(q: &TypedQuery, admitted: &[Vec<Value>]) -> RefOut {
         if !keys.iter().any(|x| cmp_key(x, &k) == Ordering::Equal) { keys.push(k); }
     }
     keys.sort_by(|a, b| cmp_key(a, b));
-    let mut out = RefOut { undecided: false, rows: Vec::new(), d10: false, d15: false, cond_error };
+    let mut out = RefOut { undecided: false, rows: Vec::new(), rows_d10: Vec::new(), d10: false, d15: false, cond_error };
     let mut all_aggs: Vec<&AggK> = q.items.iter().filter_map(|it| match it { Item::Agg(a, _) => Some(a), _ => None }).collect();
     if let Some(h) = &q.having { h.aggs(&mut all_aggs); }
     out.undecided = all_aggs.iter().any(|a| matches!(a, AggK::Stddev(c, _) if *c == IV));
     for k in &keys {
         let g: Vec<&Vec<Value>> = passing.iter().filter(|r| cmp_key(&key_of(r), k) == Ordering::Equal).cloned().collect();
-        if !all_aggs.iter().any(|a| creates_entry(a, &g)) { out.d10 = true; }
+        let visible = all_aggs.iter().any(|a| creates_entry(a, &g));
+        if !visible { out.d10 = true; }
         for a in &all_aggs { if let AggK::ArrayAgg(c) = a { if g[0][*c] == Value::Null { out.d15 = true; } } }
         if let Some(h) = &q.having {
             match h.holds(&g) { Some(true) => {}, Some(false) => continue, None => { out.cond_error = true; continue; } }
         }
-        out.rows.push(q.items.iter().map(|it| match it {
+        let row: Vec<Value> = q.items.iter().map(|it| match it {
             Item::Key(i) => k[*i].clone(),
             Item::Agg(a, wrap) => apply_wrap(ref_aggregate(a, &g), wrap),
-        }).collect());
+        }).collect();
+        if visible { out.rows_d10.push(row.clone()); }
+        out.rows.push(row);
     }
     out
 }
@@ -586,19 +629,25 @@ pub fn run(p: &Params) -> Run {
             _ if expected.undecided => ("undecided", 0),
             RowsOutcome::Error(_) if expected.cond_error => ("cond-err", 0),
             RowsOutcome::Rows { rows, .. } if expected.cond_error => {
-                let class = if expected.d10 { "D10:group-without-value-entry" } else { "D69:condition-type-mismatch-not-reported" };
-                run.fail(desc.clone(), class, format!("WHERE on some row / HAVING on some group is neither BOOLEAN nor NULL: an error must be reported, but the implementation printed {:?}", rows));
+                // no open finding predicts a table here: a WHERE error precedes every group, and a bare HAVING aggregate is one
+                // that creates an entry in every group (no group is invisible, D10)
+                run.fail(desc.clone(), "D69:condition-type-mismatch-not-reported", format!("WHERE on some row / HAVING on some group is neither BOOLEAN nor NULL: an error must be reported, but the implementation printed {:?}", rows));
                 ("ok", rows.len())
             }
             RowsOutcome::Rows { rows, .. } => {
-                if *rows != expected.rows {
-                    let class = if expected.d15 { "D15:array_agg-first-value-null" } else if expected.d10 { "D10:group-without-value-entry" } else { "aggregate-table-differs-from-reference" };
-                    run.fail(desc.clone(), class, format!("implementation table {:?} but the rows of each group give {:?}", rows, expected.rows));
+                if !tables_match(rows, &expected.rows) {
+                    // known finding D10 only if the table is EXACTLY the predicted one: the reference table without the
+                    // groups in which no aggregate creates an entry (and no ARRAY_AGG starts with NULL: D15 predicts an
+                    // error, so a table is then not what any finding predicts)
+                    let class = if expected.d10 && !expected.d15 && tables_match(rows, &expected.rows_d10) { "D10:group-without-value-entry" } else { "aggregate-table-differs-from-reference" };
+                    let note = if expected.d15 { " (finding D15 predicts the error `Cannot create array of null type` here)".to_owned() } else if expected.d10 { format!(" (finding D10 predicts {:?})", expected.rows_d10) } else { String::new() };
+                    run.fail(desc.clone(), class, format!("implementation table {:?} but the rows of each group give {:?}{}", rows, expected.rows, note));
                 }
                 ("ok", rows.len())
             }
             RowsOutcome::Error(e) => {
-                let class = if expected.d15 { "D15:array_agg-first-value-null" } else { "aggregate-error-on-typed-statement" };
+                // known finding D15 only if the error is EXACTLY `ExecutionError::CannotCreateArrayOfNullType`
+                let class = if expected.d15 && e == D15_ERROR { "D15:array_agg-first-value-null" } else { "aggregate-error-on-typed-statement" };
                 run.fail(desc.clone(), class, format!("implementation reports `{}` but the rows of each group give {:?}", e, expected.rows));
                 ("err", 0)
             }
